@@ -27,7 +27,7 @@ ASSUMPTIONS = [
 ]
 SHARD_TIMEOUT = {"quick": 600, "thorough": 3000}
 
-KINDS = ["conn-close", "http10", "http10-te", "refused-400", "refused-431", "short", "short0", "nocl", "raise0", "raise1", "send-fault",
+KINDS = ["urgent", "conn-close", "http10", "http10-te", "refused-400", "refused-431", "short", "short0", "nocl", "raise0", "raise1", "send-fault",
          "recv-fault", "continue-send-fault", "refused-400-head", "raise0-head", "te-plus-empty-cl", "refused-proxy-400"]
 FOLLOW = ["one", "two", "partial", "garbage"]
 ARRIVAL = ["same", "next", "after-response", "delay", "during-execution"]
@@ -94,6 +94,8 @@ def build(kind, follow, arrival, lookahead, threads, poll, pre, sndbuf=4096):
         faults["0:send:%d" % (1 if pre else 0)] = errno.ETIMEDOUT
     elif kind == "recv-fault":
         return build_recv_fault(follow, lookahead, threads, poll, sndbuf)
+    elif kind == "urgent":
+        return build_urgent(follow, lookahead, threads, poll)
     reqs.append(M)
     after = []
     if follow == "one":
@@ -123,8 +125,14 @@ def build(kind, follow, arrival, lookahead, threads, poll, pre, sndbuf=4096):
         total = sum(len(b"".join(SC.request_bytes(0, i, r))) for i, r in enumerate(reqs))
         head_len = sum(len(b"".join(SC.request_bytes(0, i, r))) for i, r in enumerate(reqs[: m_index + 1]))
         c["plan"] = [[head_len, "app-waiting" if "raw" not in M else "yield", 1], [total, "gate", 0]]
-    if kind == "refused-431":
-        pass
+    if kind == "continue-send-fault" and pre and arrival == "body-after-response":
+        # the body of the expecting request M is sent when the response in front of it has arrived: about when
+        # the worker, at the end of that request, writes M's 100 Continue (which fails)
+        before_body = sum(len(b"".join(SC.request_bytes(0, i, r))) for i, r in enumerate(reqs[:m_index])) + len(SC.request_bytes(0, m_index, M)[0])
+        c["plan"] = [[before_body, "recv", 140 + sum(p_["n"] for p_ in pre)]]
+        # (the response in front goes out in two sends, head and body; the third is the 100 Continue)
+        faults.clear()
+        faults["0:send:2"] = errno.ETIMEDOUT
     scn = {"adj": adj, "sndbuf": sndbuf, "conns": [c], "faults": faults, "m_index": m_index, "kind": kind}
     return scn
 
@@ -149,6 +157,21 @@ def build_recv_fault(follow, lookahead, threads, poll, sndbuf):
     # next steps (finish the blocker, start B) race
     return {"adj": adj, "sndbuf": sndbuf, "conns": [judged, blocker], "faults": {"0:recv:1": errno.ETIMEDOUT},
             "m_index": -1, "kind": "recv-fault"}
+
+
+def build_urgent(follow, lookahead, threads, poll):
+    """The client does not read: the first response stays pending.  While the second request executes (gated)
+    the client sends a byte of TCP urgent data, upon which the server gives the connection up.  Whatever of
+    this connection starts after that is late."""
+    from vf.sim import scenario as SC
+
+    adj = {"threads": threads, "channel_request_lookahead": lookahead, "asyncore_use_poll": poll, "send_bytes": 1}
+    reqs = [{"n": 5000, "k": "cl"}, {"n": 30, "k": "cl", "gate": True}, {"n": 10, "k": "cl"}]
+    if follow == "two":
+        reqs.append({"n": 20, "k": "cl"})
+    total = sum(len(b"".join(SC.request_bytes(0, i, r))) for i, r in enumerate(reqs))
+    c = {"requests": reqs, "sndbuf": 512, "plan": [[total, "app-waiting", 1], [total, "oob", 0], [total, "yield", 40], [total, "gate", 0]]}
+    return {"adj": adj, "sndbuf": 512, "conns": [c], "faults": {}, "m_index": 1, "kind": "urgent"}
 
 
 def stale_readable_scenario(kind):
@@ -206,6 +229,14 @@ def directed():
             s = build(kind, "two", "next", la, 1, False, [{"n": 50, "k": "cl"}], sndbuf=512)
             s["follow"], s["arrival"] = "two", "next"
             out.append(s)
+    for la in (1, 2):
+        s = build("continue-send-fault", "one", "body-after-response", la, 1, False, [{"n": 50, "k": "cl"}], sndbuf=4096)
+        s["follow"], s["arrival"] = "one", "body-after-response"
+        out.append(s)
+    for la in (0, 2):
+        s = build("urgent", "two", "same", la, 1, False, [])
+        s["follow"], s["arrival"] = "two", "same"
+        out.append(s)
     # the peer of a worker-side flush is gone for good (every later send fails as well)
     for la in (0, 2):
         s = build("send-fault", "two", "next", la, 1, False, [{"n": 50, "k": "cl"}], sndbuf=512)
@@ -237,7 +268,7 @@ def plan(tier, seed):
         specs.append({"mode": "random", "seed": seed * 1021 + i, "n": per})
     ds = directed()
     if tier == "quick":
-        ds = [ds[0], ds[1], ds[3], ds[5], ds[9], ds[11], ds[13], ds[15], ds[17], ds[18], ds[19], ds[20], ds[21], ds[22], ds[25]]
+        ds = [ds[i] for i in (0, 1, 3, 5, 9, 11, 13, 15, 17, 18, 19, 20, 21, 22, 23, 24, 25, 26, 29)]
     parts = 4
     for scn in ds:
         for p in range(parts):
@@ -258,6 +289,8 @@ def plan(tier, seed):
     for scn in (d0[:1] if tier == "quick" else d0):
         for p in range(8):
             specs.append({"mode": "enum2", "shape": "stale-readable", "scn": scn, "part": p, "parts": 8, "window": 40 if tier == "quick" else 80})
+    # (the shape "body-into-lock-window" is kept for replays; a third pre-emption is needed for its scenarios to
+    # show anything -- see DESIGN.md 9 -- so it is not part of the plan)
     d3 = [d for d in directed() if d.get("small_reads")]
     if tier == "quick":
         d3 = d3[:2]
@@ -386,7 +419,9 @@ def judge(scn, o):
                                 late.append(i)
         if not [1 for step, i in entered if i == m]:
             return out
-    if kind in ("recv-fault", "continue-send-fault"):
+    if kind == "urgent":
+        w.fault_step = getattr(w, "c11_decision", {}).get(cid)
+    if kind in ("recv-fault", "continue-send-fault", "urgent"):
         # a client fault on the I/O thread: whatever of this connection STARTS after the server has
         # given the connection up (a closing flag set / connected cleared -- not the failing call
         # itself, a few steps earlier) is late, the message that was being received included
@@ -490,6 +525,19 @@ def run_shard(spec):
                 return isinstance(site, tuple) and (site[0] == "service" or site[0] in ("lock", "unlock"))
 
             gen = runner.double_preemptions(scn, first, window=spec.get("window", 60), second="target", second_filter=second)
+        elif spec.get("shape") == "body-into-lock-window":
+            # first pre-emption: the worker has sent the response in front of the expecting request and is on its
+            # way to the end of service(); the client, which has seen that response, sends the body.  Second
+            # pre-emption: the worker is inside the locked region at the end of service() (about to write the
+            # 100 Continue, which fails) when the I/O thread reads the body and waits for the lock.
+            def first(site, cur):
+                return isinstance(site, tuple) and site[0] in ("service", "finish", "close", "execute", "write_soon", "_flush_some")
+
+            def second(site):
+                return isinstance(site, tuple) and site[0] in ("service", "send_continue", "lock", "unlock")
+
+            gen = runner.double_preemptions(scn, first, window=spec.get("window", 40), second="preempted", second_filter=second,
+                                            first_roles=("actor",))
         elif spec.get("shape") == "stale-readable":
             # first pre-emption: the I/O thread is in the middle of readable() (it has read some of the terms) when
             # the worker executes the closing request and takes the decision; second pre-emption: the I/O thread,
